@@ -746,3 +746,105 @@ func ruleSettingsApplied(p *Prog, r *Out) {
 		r.check(cl, "buffered response declares its length", p.pos(fd.Pos()), "SetContentLength(len(body)) when not streamed", "a buffered response no longer gets content-length = len(body)")
 	}
 }
+
+func init() {
+	register(&Rule{
+		Name: "config-reaches-enforcement", Props: []string{"C13", "C18", "C14"}, Engine: "AST", Floor: 8,
+		Doc: "the limits a user configures are the ones the connection enforces and advertises: ServeConn takes MaxHeaderListSize and the request-body limit from the configuration, puts MaxConcurrentStreams and the receive window into the SETTINGS object that the handshake sends and that stream creation compares against, the receive-window accounting starts from the advertised window, a non-positive MaxConcurrentStreams gets a positive default, and the send side starts from the RFC's 65535 connection window",
+		Run: ruleConfigEnforcement,
+	})
+}
+
+func ruleConfigEnforcement(p *Prog, r *Out) {
+	fd := p.decl("(*Server).ServeConn")
+	if fd == nil {
+		r.undecided("(*Server).ServeConn", "?", "no longer resolves")
+		return
+	}
+	r.fn("(*Server).ServeConn", "(*ServerConfig).defaults", "maxRequestBodySize", "(*serverConn).Handshake", "(*serverConn).Serve")
+	pos := p.pos(fd.Pos())
+	// composite literal fields
+	lit := map[string]string{}
+	ast.Inspect(fd.Body, func(n ast.Node) bool {
+		if cl, ok := n.(*ast.CompositeLit); ok && strings.HasSuffix(p.text(cl.Type), "serverConn") {
+			for _, e := range cl.Elts {
+				if kv, ok := e.(*ast.KeyValueExpr); ok {
+					lit[p.text(kv.Key)] = squash(p.text(kv.Value))
+				}
+			}
+		}
+		return true
+	})
+	r.check(lit["maxHeaderList"] == "s.cnf.MaxHeaderListSize", "header-list limit comes from the configuration", pos, "maxHeaderList: s.cnf.MaxHeaderListSize", "the connection's header-list limit is "+lit["maxHeaderList"]+", not the configured MaxHeaderListSize")
+	r.check(lit["maxRequestBodySize"] == "maxRequestBodySize(s.s)", "body limit comes from the fasthttp server", pos, "maxRequestBodySize: maxRequestBodySize(s.s)", "the connection's request-body limit is "+lit["maxRequestBodySize"]+", not the fasthttp server's MaxRequestBodySize")
+	if md := p.decl("maxRequestBodySize"); md != nil {
+		ok := false
+		for _, s := range md.Body.List {
+			if ifs, isIf := s.(*ast.IfStmt); isIf {
+				if c, okc := p.canonCmp(ifs.Cond, nil); okc && c.Op == "le" && c.L.eq(Lin{T: map[string]int64{"s.MaxRequestBodySize": -1}, C: 1}) {
+					if ret, isRet := ifs.Body.List[0].(*ast.ReturnStmt); isRet && p.text(ret.Results[0]) == "s.MaxRequestBodySize" {
+						ok = true
+					}
+				}
+			}
+		}
+		r.check(ok, "configured body limit is used when set", p.pos(md.Pos()), "if s.MaxRequestBodySize > 0 { return it }", "maxRequestBodySize no longer returns the configured MaxRequestBodySize whenever it is positive")
+	}
+	// statements before the handshake
+	idx := map[string]int{}
+	for i, s := range fd.Body.List {
+		switch x := s.(type) {
+		case *ast.ExprStmt:
+			if c, ok := x.X.(*ast.CallExpr); ok {
+				idx[squash(p.text(c))] = i + 1
+			}
+		case *ast.AssignStmt:
+			idx[squash(p.text(x))] = i + 1
+		case *ast.IfStmt:
+			if x.Init != nil && strings.Contains(p.text(x.Init), "sc.Handshake()") {
+				idx["handshake"] = i + 1
+			}
+		}
+	}
+	hs := idx["handshake"]
+	before := func(k string) bool { return idx[k] > 0 && hs > 0 && idx[k] < hs }
+	r.check(before("sc.st.SetMaxConcurrentStreams(uint32(s.cnf.MaxConcurrentStreams))"), "configured stream limit is advertised and enforced", pos, "sc.st.SetMaxConcurrentStreams(cnf) before the handshake", "ServeConn no longer puts the configured MaxConcurrentStreams into the SETTINGS object before the handshake: the limit advertised and enforced (sc.st.maxStreams) is the library default, not the configured one")
+	r.check(before("sc.st.SetMaxWindowSize(uint32(sc.maxWindow))") && before("sc.currentWindow=sc.maxWindow"), "advertised receive window is the accounted one", pos, "SetMaxWindowSize(maxWindow); currentWindow = maxWindow", "the receive window the server advertises and the one its accounting starts from no longer come from the same value: credit is returned too late (the peer stalls) or the peer is held to a window it was not told")
+	r.check(idx["sc.st.Reset()"] > 0 && idx["sc.st.Reset()"] < idx["sc.st.SetMaxConcurrentStreams(uint32(s.cnf.MaxConcurrentStreams))"], "settings object reset before it is filled", pos, "sc.st.Reset() first", "the SETTINGS object is not reset before the configured values are stored (or is reset after them)")
+	// the handshake sends that same object
+	if hd := p.decl("(*serverConn).Handshake"); hd != nil {
+		ok := false
+		inspectCalls(hd.Body, func(c *ast.CallExpr) {
+			if p.calleeOf(c) == "Handshake" && len(c.Args) == 4 && squash(p.text(c.Args[2])) == "&sc.st" && squash(p.text(c.Args[3])) == "sc.maxWindow" {
+				ok = true
+			}
+		})
+		r.check(ok, "handshake sends the enforced settings", p.pos(hd.Pos()), "Handshake(false, bw, &sc.st, sc.maxWindow)", "the server handshake no longer sends the SETTINGS object (and connection window) that the connection enforces")
+	}
+	if dd := p.decl("(*ServerConfig).defaults"); dd != nil {
+		ok := false
+		for _, s := range dd.Body.List {
+			if ifs, isIf := s.(*ast.IfStmt); isIf {
+				if c, okc := p.canonCmp(ifs.Cond, nil); okc && c.Op == "le" && c.L.eq(Lin{T: map[string]int64{"sc.MaxConcurrentStreams": 1}}) {
+					if as, isAs := ifs.Body.List[0].(*ast.AssignStmt); isAs {
+						if v, okv := p.intConst(as.Rhs[0]); okv && v > 0 && p.text(as.Lhs[0]) == "sc.MaxConcurrentStreams" {
+							ok = true
+						}
+					}
+				}
+			}
+		}
+		r.check(ok, "unset stream limit gets a positive default", p.pos(dd.Pos()), "MaxConcurrentStreams <= 0 -> positive default", "a non-positive MaxConcurrentStreams no longer gets a positive default: the server advertises 0 (or a negative value converted to a huge one) and refuses, or never limits, streams")
+	}
+	if sd := p.decl("(*serverConn).Serve"); sd != nil {
+		ok := false
+		for _, s := range sd.Body.List {
+			if as, isAs := s.(*ast.AssignStmt); isAs && len(as.Lhs) == 1 && p.isFieldSel(as.Lhs[0], "serverConn", "clientWindow") {
+				if v := p.constOf(as.Rhs[0]); v != nil && v.ExactString() == "65535" {
+					ok = true
+				}
+			}
+		}
+		r.check(ok, "connection send window starts at 65535", p.pos(sd.Pos()), "clientWindow = 65535", "the server's connection-level send window no longer starts at 65535 octets (RFC 7540 s6.9.2: not affected by SETTINGS): it sends more than the peer granted, or stalls early")
+	}
+}
